@@ -11,7 +11,7 @@ V = os.path.dirname(os.path.dirname(os.path.abspath(__file__)))
 # round-3/4 changes that the checks caught only after an extension made in the same round (recorded honestly in each meta.json)
 EXTENDED_AFTER_READING = set('''C01-r31 C03-r31 C03-r32 C06-r32 C06-r33 C08-r32 C09-r33 C11-r31 C13-r32 C14-r31 C14-r33 C15-r32 C16-r33 C17-r31 C18-r32 C20-r33
 C01-r41 C01-r42 C03-r41 C04-r41 C04-r42 C05-r41 C05-r42 C06-r42 C08-r41 C08-r42 C12-r42 C13-r41 C13-r42 C15-r41 C15-r42 C16-r42 C17-r42 C18-r41
-C07-r41 C07-r42'''.split())
+C07-r41 C07-r42 C14-r51'''.split())
 S = os.path.join(V, 'seeded')
 rows = []
 
@@ -25,7 +25,7 @@ def load(p):
 
 os.makedirs(S, exist_ok=True)
 for ev in (sorted(glob.glob('/tmp/mut/eval/C??-?.json')) + sorted(glob.glob('/tmp/mut/eval/C??-r2?.json'))
-           + sorted(glob.glob('/tmp/mut/eval/C??-r3?.json')) + sorted(glob.glob('/tmp/mut4/eval/C??-r4?.json'))):
+           + sorted(glob.glob('/tmp/mut/eval/C??-r3?.json')) + sorted(glob.glob('/tmp/mut4/eval/C??-r4?.json')) + sorted(glob.glob('/tmp/mut5/eval/C??-r5?.json'))):
     d = load(ev)
     if not d or 'checks' not in d:
         continue
@@ -38,6 +38,8 @@ for ev in (sorted(glob.glob('/tmp/mut/eval/C??-?.json')) + sorted(glob.glob('/tm
         src, i = src + '3', i[2:]
     elif i.startswith('r4'):
         src, i = '/tmp/mut4/%s.out4' % pid, i[2:]
+    elif i.startswith('r5'):
+        src, i = '/tmp/mut5/%s.out5' % pid, i[2:]
     meta = load('%s/meta%s.json' % (src, i)) or {}
     if not (d.get('tests', '').startswith('141 passed') and d.get('demo_clean_exit') == 0 and d.get('demo_patched_exit') == 1):
         continue      # keep only confirmed changes
